@@ -47,7 +47,7 @@ func genC16Page(r *Rand, g *Gen, idx int) *c16Page {
 		for m := range p.markers {
 			before[m] = true
 		}
-		which := r.Intn(26)
+		which := r.Intn(27)
 		kindNames := []string{"page top level", "loop body", "component included k times", "two components", "side by side", "unreachable branch", "component inside a loop",
 			"on the loop element", "component reached directly and through a wrapper", "nested loops", "shorthand component tag", "component with <template> root", "v-if branch taken",
 			"slot content, component used twice", "same-name components in different directories", "else-branch inside a loop", "v-once on the <template> root of a component",
@@ -55,8 +55,13 @@ func genC16Page(r *Rand, g *Gen, idx int) *c16Page {
 			"named slot content placed at two outlets", "named slot content placed in a loop",
 			"<template v-else v-once> inside a loop", "v-once elements nested in a v-once ancestor",
 			"v-once head of an if-chain with its else-branch, inside a loop", "v-once with a v-if that is false at the first instantiation (loop)",
-			"v-once with a v-if that is false at the first include of its component"}
+			"v-once with a v-if that is false at the first include of its component", "v-once together with v-pre, inside a loop"}
 		switch which {
+		case 26: // v-pre switches off interpolation and directives inside the element, not the v-once rule for the element
+			m := mk()
+			pt := Pick(r, []string{"script", "pre", "code"})
+			parts = append(parts, fmt.Sprintf(`<div v-for="item in items"><%s v-once v-pre>%s {{ raw }}</%s><i>{{ item.id }}</i></div>`, pt, m, pt))
+			p.markers[m] = func(items int, _ bool) int { return min1(items) }
 		case 23: // the head of an if-chain carries v-once: once it has been emitted, later iterations must still reach the else-branch
 			ma, mb := mk(), mk()
 			if r.Bool() {
@@ -237,6 +242,16 @@ func genC16Page(r *Rand, g *Gen, idx int) *c16Page {
 		}
 	}
 	p.body = "<main>\n" + strings.Join(parts, "\n") + "\n</main>\n"
+	if r.Chance(12) {
+		// attribute names are case-insensitive in HTML: V-ONCE is v-once (in the page and in the components made so far)
+		sp := Pick(r, []string{" V-ONCE", " v-Once"})
+		p.body = strings.ReplaceAll(p.body, " v-once", sp)
+		for name, vs := range g.Files {
+			if strings.HasPrefix(name, "components/") {
+				vs[0] = strings.ReplaceAll(vs[0], " v-once", sp)
+			}
+		}
+	}
 	return p
 }
 
